@@ -15,9 +15,9 @@ def snapshot(mp, queries, roundtrip=False, tag=""):
     for p, assoc in queries:
         try:
             r = mp.map_result(p, assoc)
-            ev["q"].append({"p": p, "assoc": assoc, "res": {"kind": "ok"}, "pos": r.pos, "del": r.del_info, "simple": mp.map(p, assoc)})
+            ev["q"].append({"p": p, "assoc": assoc, "mode": "both", "res": {"kind": "ok"}, "pos": r.pos, "del": r.del_info, "simple": mp.map(p, assoc)})
         except Exception as ex:  # noqa: BLE001
-            ev["q"].append({"p": p, "assoc": assoc, "res": {"kind": "raise", "cls": type(ex).__name__}, "pos": -1, "del": 0, "simple": -1})
+            ev["q"].append({"p": p, "assoc": assoc, "mode": "both", "res": {"kind": "raise", "cls": type(ex).__name__}, "pos": -1, "del": 0, "simple": -1})
     return ev
 
 
